@@ -176,7 +176,7 @@ def _trilist(g, n):
     return tl
 
 
-def _edges(g, n, tree=False, loops=False):
+def _edges(g, n, tree=False, loops=False, directed=False):
     if tree:
         # breadth-first numbering (non-decreasing parents): menpo's Tree constructor compares
         # scipy's BFS edge order with the CSR order and rejects other numberings of valid trees
@@ -192,6 +192,9 @@ def _edges(g, n, tree=False, loops=False):
         a, b = sorted(int(v) for v in g.randint(0, n, size=2))
         if a != b or loops:
             e.add((a, b))
+    if directed:
+        # a directed graph has edges in either direction (from a higher to a lower vertex as well)
+        e = {((b, a) if g.rand() < 0.5 else (a, b)) for a, b in sorted(e)}
     return np.array(sorted(e)).reshape(-1, 2)
 
 
@@ -210,7 +213,7 @@ def make_shape(kind, seed, n, d):
     if kind == "PointUndirectedGraph":
         return PointUndirectedGraph.init_from_edges(pts, _edges(g, n, loops=bool(seed & 4)))
     if kind == "PointDirectedGraph":
-        return PointDirectedGraph.init_from_edges(pts, _edges(g, n, loops=bool(seed & 4)))
+        return PointDirectedGraph.init_from_edges(pts, _edges(g, n, loops=bool(seed & 4), directed=True))
     if kind == "PointTree":
         return PointTree.init_from_edges(pts, _edges(g, n, tree=True), root_vertex=0)
     if kind == "LabelledPointUndirectedGraph":
